@@ -160,13 +160,16 @@ CtlPairs(w, s, i, f) ==
 Adjacent(a, b) == \E x \in adj : (x[1] = a /\ x[3] = b) \/ (x[1] = b /\ x[3] = a)
 AdjPort(a, b) == LET l == CHOOSE x \in adj : (x[1] = a /\ x[3] = b) \/ (x[1] = b /\ x[3] = a)
                  IN IF l[1] = a THEN l[2] ELSE l[4]
-PathsN(n) == {p \in [1..n -> Switches] : /\ \A x, y \in 1..n : x # y => p[x] # p[y]
-                                         /\ \A x \in 1..(n - 1) : Adjacent(p[x], p[x + 1])}
-RECURSIVE Shortest(_, _, _)
-Shortest(a, b, n) ==
-  IF n > NS THEN {}
-  ELSE LET r == {p \in PathsN(n) : p[1] = a /\ p[n] = b} IN IF r # {} THEN r ELSE Shortest(a, b, n + 1)
-Routes(a, b) == Shortest(a, b, 1)
+\* shortest simple paths from a to b: grown level by level until one ends at b (_calc_paths is Floyd-Warshall;
+\* which of several equally short paths it takes is not modelled - the worlds have unique shortest paths)
+NextOn(p) == {x \in Switches : Adjacent(p[Len(p)], x) /\ \A k \in 1..Len(p) : p[k] # x}
+RECURSIVE Grow(_, _, _)
+Grow(P, b, n) ==
+  LET done == {p \in P : p[Len(p)] = b} IN
+  IF done # {} THEN done
+  ELSE IF n = 0 \/ P = {} THEN {}
+  ELSE Grow(UNION {{Append(p, t) : t \in NextOn(p)} : p \in P}, b, n - 1)
+Routes(a, b) == Grow({<<a>>}, b, NS)
 IsEdge(s, p) == \A l \in adj : <<s, p>> \notin EndsOf(l)          \* discovery.is_edge_port
 \* ports of the k-th switch of route r entered at port i and left at port lp
 InP(r, k, i)   == IF k = 1 THEN i ELSE AdjPort(r[k], r[k - 1])
@@ -208,7 +211,8 @@ CtlMulti(w, s, i, f) ==
                  F2  == [t \in Switches |-> Install(Install(w.flows[t], fwd[t]), rev[t])]
                  \* all barriers in: packet_out(data = the packet-in, output:TABLE) at this switch
                  hit == CHOOSE fl \in F2[s] : Covers(fl, i, f)
-             IN Dec(F2, w.tab, mac1, 0, SwitchOut(s, i, hit.out), 0, "path", "")
+             IN Dec(F2, w.tab, mac1, 0, SwitchOut(s, i, hit.out), 0,
+                    IF adj = Links THEN "path" ELSE "repath", "")                  \* repath: after a link went down
 
 Ctl(w, s, i, f) ==
   CASE Comp = "hub_re"  -> CtlHubRe(w, s, i, f)
@@ -327,7 +331,7 @@ HasDev(k) == \E hp \in last'.full : hp.dev = k
 ViaFlow    == SendAny /\ HasVia("flow")
 ViaFlood   == SendAny /\ HasVia("flood") /\ \E hp \in last'.full : hp.via = "flood" /\ hp.out # {}
 ViaPair    == SendAny /\ HasVia("pair")
-ViaPath    == SendAny /\ HasVia("path")
+ViaPath    == SendAny /\ (HasVia("path") \/ HasVia("repath"))
 ViaLldp    == SendAny /\ HasVia("lldp-drop")
 ViaUnreach == SendAny /\ HasVia("unreach")
 ViaHeld    == SendAny /\ HasVia("held")
